@@ -9,7 +9,7 @@ mkdir -p "$T/verif"; cp /verif/known_findings.json "$T/verif/"; mkdir -p "$T/ver
 (cd "$T/repo" && patch -s -p1 < "$d") || exit 1
 export GOFLAGS=-mod=mod GOPROXY=off GOSUMDB=off GOTOOLCHAIN=local GOWORK=off
 for p in "$@"; do
-  /verif/bin/gfs3check -prop $p -tier quick -repo "$T/repo" -verif "$T/verif" | grep -v '^KNOWN' | cut -c1-${TRY_WIDTH:-700}
+  ${BIN:-/verif/bin/gfs3check} -prop $p -tier quick -repo "$T/repo" -verif "$T/verif" | grep -v '^KNOWN' | cut -c1-${TRY_WIDTH:-700}
   python3 - "$T/verif/evidence/$p.json" <<'PY'
 import json,sys
 try:
